@@ -1723,6 +1723,27 @@ class ForAll(BinaryOperator):
             required_vars = required_vars.union(self.condition._unique_variables_)
         return required_vars
 
+    @staticmethod
+    def _ids_of_variables_referred_to_by_(expression: SymbolicExpression, visited: typing.Set[int]) -> typing.Set[int]:
+        """
+        The ids of the variables an expression refers to, not counting what stands inside a universal condition of its
+        own: what another for_all quantifies over (and the variables that one is decided for) is that one's business.
+        """
+        if id(expression) in visited or isinstance(expression, ForAll):
+            return set()
+        visited.add(id(expression))
+        if isinstance(expression, Variable) and not expression._child_vars_:
+            return set() if isinstance(expression, Literal) else {expression._id_}
+        ids = set()
+        children = list(expression._children_)
+        if isinstance(expression, QueryObjectDescriptor):
+            children.extend(expression.selected_variables)
+        if isinstance(expression, Variable):
+            children.extend(expression._child_vars_.values())
+        for child in children:
+            ids.update(ForAll._ids_of_variables_referred_to_by_(child, visited))
+        return ids
+
     @property
     def _ids_of_variables_used_outside_(self) -> typing.Set[int]:
         """
@@ -1732,12 +1753,17 @@ class ForAll(BinaryOperator):
         ids = set()
         child, parent = self, self._parent_
         while parent is not None:
-            used = [other for other in parent._children_ if other is not child]
-            if isinstance(parent, QueryObjectDescriptor):
-                used.extend(parent.selected_variables)
-            used.extend(conclusion for node in (child, parent) for conclusion in node._conclusion_)
-            for expression in used:
-                ids.update(v.id_ for v in expression._unique_variables_)
+            if isinstance(parent, ForAll):
+                # (this condition stands inside another universal condition: under a binding of its universal)
+                ids.update(v.id_ for v in parent.variable._unique_variables_)
+            else:
+                used = [other for other in parent._children_ if other is not child]
+                if isinstance(parent, QueryObjectDescriptor):
+                    used.extend(parent.selected_variables)
+                used.extend(conclusion for node in (child, parent) for conclusion in node._conclusion_)
+                visited = {id(child)}
+                for expression in used:
+                    ids.update(self._ids_of_variables_referred_to_by_(expression, visited))
             child, parent = parent, parent._parent_
         return ids
 
